@@ -16,7 +16,11 @@ var _ containers.JSONDeserializer = (*List[int])(nil)
 
 // ToJSON outputs the JSON representation of list's elements.
 func (list *List[T]) ToJSON() ([]byte, error) {
-	return json.Marshal(list.elements)
+	elements := list.elements
+	if elements == nil {
+		elements = []T{}
+	}
+	return json.Marshal(elements)
 }
 
 // FromJSON populates list's elements from the input JSON representation.
